@@ -220,7 +220,10 @@ def py_partition_issue(p):
 
 class C08(Prop):
     pid = "C08"
-    theorems = ["C08_invariant_checker_sound", "C08_quantile_order_wf", "C08_grouping_preserves_wf"]
+    theorems = ["C08_invariant_checker_sound", "C08_quantile_search_never_fails_internally",
+                "C08_quantile_order_wf", "C08_merging_loop_total", "C08_grouping_preserves_wf",
+                "C08_ordinal_fit_never_fails_internally", "C08_categorical_fit_never_fails_internally",
+                "C08_quantitative_fit_wf_or_clean_failure"]
     rule = ("degenerate-input generator: 2-150 rows; per feature one of constant / all-missing / near-unique "
             "/ many equally rare values / spike / heavy ties / two values / rare tail / plain, NaN share 0-33%, "
             "numeric-looking categories, ordinal rankings with never-observed values; all classes "
